@@ -54,6 +54,8 @@ type simPart struct {
 	batches  []simLogBatch
 	logStart int64
 	fetchN   int
+	// offset of the last fetch that was answered with data or emptily (faults excluded)
+	lastFetchOff int64
 }
 
 // per produce-request plan (fault script)
